@@ -50,6 +50,14 @@ def fault_matrix_cases(tier, rng):
                         cfg = Cfg(mode=0, max_seg=4, ack_limit=N, nak_limit=N, imm_nak=rng.random() < 0.5, closure=rng.random() < 0.5,
                                   disposition=rng.random() < 0.4, cktype=rng.choice([2, 3, 15]), **tables((1, 7)))
                         yield timers.SilentCase(cfg, rng.choice([5, 9]), cut_dir, cut, None, tag="c14m")
+            # NAK Limit (7) while the sender keeps re-sending its EOF (its ACKs are lost): the fault is declared by a call
+            # that has already queued an ACK (EOF)
+            for N in (1, 2):
+                for drop_at in (1, 2):
+                    cfg = Cfg(mode=0, max_seg=4, ack_limit=N + 3, nak_limit=N, imm_nak=rng.random() < 0.5, closure=rng.random() < 0.5,
+                              cktype=rng.choice([2, 3]), **tables((7, 1)))
+                    yield timers.GateCase(cfg, 9, [Fault("s2d", drop_at, "drop")], [("rounds", 6, True, False), ("tick", 2 * N + 3)],
+                                          tag="c14m")
             # Check Limit (10): sender with closure never sees the Finished PDU; receiver's late data never arrives
             for L in (1, 2):
                 for cut in (2, 3, 4):
